@@ -878,7 +878,9 @@ func ruleWanted(prop, r string) bool {
 	case "C04":
 		return r == "source" || r == "install" || r == "state"
 	case "C05":
-		return r == "gate" || r == "size" || r == "eof" || r == "ext"
+		return r == "gate" || r == "size" || r == "eof" || r == "ext" || r == "state"
+	case "C08":
+		return r == "install" || r == "drain"
 	case "C07":
 		return r == "utf8" || r == "state"
 	case "C13":
